@@ -44,7 +44,7 @@ type Frozen struct {
 
 var wrapAlways bool
 
-func nt(n jmespath.ASTNode) string           { return jmespath.VerifNodeType(n) }
+func nt(n jmespath.ASTNode) string               { return jmespath.VerifNodeType(n) }
 func kids(n jmespath.ASTNode) []jmespath.ASTNode { return jmespath.VerifChildren(n) }
 
 func isOpenProj(n jmespath.ASTNode) bool {
